@@ -110,7 +110,8 @@ def g_add_rel(rng, seq):
     kind = rng.random()
     idx = None if rng.random() < 0.6 else rng.randrange(0, 64)
     if kind < 0.4:
-        return {"msg": {"t": "wait", "ch": ch, "time": rng.choice([1, 3, 6, 12, 24, rng.randrange(1, 60)])}, "index": idx}
+        return {"msg": {"t": "wait", "ch": ch, "time": rng.choice([1, 3, 6, 12, 24, rng.randrange(1, 60), rng.choice([6, 0, 2000])])},
+                "index": idx}
     if kind < 0.65:
         return {"msg": {"t": "note_on", "ch": ch, "note": rng.randrange(30, 100), "velocity": rng.randrange(1, 128)}, "index": idx}
     if kind < 0.85:
@@ -147,7 +148,8 @@ def g_overwrite_rel(rng, seq):
 
 def g_pad(rng, seq):
     d = _duration(seq)
-    return {"n": rng.choice([0, d, d + 1, max(0, d - 1), d + rng.randrange(1, 100), rng.randrange(0, 400), 96, 192])}
+    return {"n": rng.choice([0, d, d + 1, max(0, d - 1), d + rng.randrange(1, 100), rng.randrange(0, 400), 96, 192,
+                             rng.choice([96, 100000])])}
 
 
 def g_set_channel(rng, seq):
